@@ -89,7 +89,10 @@ def discharge(ctx, name, clause, kind="check", detail=""):
     t0 = time.time()
     neg = z3.Not(clause)
     s = ctx.solver
-    fast = bool(ctx.opts.get("fast"))
+    # after two obligations of this path could not be proved within the budgets, the remaining ones get the short budgets
+    # (a broken function fails many obligations; the verdict of the unit is already decided)
+    tired = getattr(ctx, "slow_unproved", 0) >= 2
+    fast = bool(ctx.opts.get("fast")) or tired
     want_sample = getattr(ctx, "sample_left", 1) > 0 and kind in ("check", "post", "inv_preserved", "lemma")
 
     def z3_try(timeout_ms):
@@ -128,11 +131,21 @@ def discharge(ctx, name, clause, kind="check", detail=""):
     #  (b) cvc5 on the full query may still prove it (then the candidate was an artefact of the weakening),
     #  (c) z3 once more with the long budget.
     cand = stage2(ctx, neg)
-    st, cms = cvc5_check(smt2, timeout_s=20 if (fast or cand is not None) else 60)
+    st, cms = cvc5_check(smt2, timeout_s=6 if tired else (20 if (fast or cand is not None) else 60))
     if st == "unsat":
         return core.Obligation(name, "discharged", ms + cms, "cvc5", path=path, kind=kind,
                                detail=(detail + f" z3:unknown({reason})").strip())
     if cand is not None:
+        # the candidate comes from a weakened (ground-instantiated) query: before it is reported, z3 gets a second, longer
+        # attempt on the full query so that a busy machine cannot turn a provable obligation into an alarm
+        r3, model3 = (z3.unknown, None) if fast else z3_try(30_000)[:2]
+        if r3 == z3.unsat:
+            return core.Obligation(name, "discharged", (time.time() - t0) * 1000, "z3", path=path, kind=kind,
+                                   detail=(detail + " (second attempt)").strip())
+        if r3 == z3.sat:
+            return core.Obligation(name, "refuted", (time.time() - t0) * 1000, "z3", model=model3, path=path, kind=kind, detail=detail,
+                                   smt2=smt2, witness=_model_witness(ctx, model3))
+        ctx.slow_unproved = getattr(ctx, "slow_unproved", 0) + 1
         return core.Obligation(name, "refuted-candidate", (time.time() - t0) * 1000, "z3-ground", model=cand,
                                path=path, kind=kind, detail=detail, smt2=smt2, witness=_model_witness(ctx, cand))
     if st == "sat":
